@@ -15,9 +15,9 @@ from .core import Sym, current
 NUM = re.compile(r"(?<![\w.])[-+]?\d+\.\d+(?:[EeDd][-+]?\d+)?(?![\w.])|(?<![\w.])[-+]?\d+\.(?:[EeDd][-+]?\d+)?(?![\w.\d])")
 
 
-def tokenise(text: str, min_decimals=2, max_tokens=4000, prefix="n", skip=None, use_model=True):
+def tokenise(text: str, min_decimals=2, max_tokens=4000, prefix="n", skip=None, use_model=True, ctx=None):
     """Return (new_text, table) where table[i] = (name, Sym-or-float, original text, line number)."""
-    ctx = current()
+    ctx = ctx if ctx is not None else current()      # a context proxy (call-history harness) names the symbols itself
     out = []
     table = []
     pos = 0
